@@ -92,15 +92,31 @@ let () =
         let ret_of = function
           | OUnit -> "ok" | OErr e -> "E" ^ sz e | OSize n -> sz n | OBytes l -> ret_bytes l
           | _ -> "?" in
+        let apix ev : step_out_x =
+          let ((s', o), tags) = unwrap (tcp_step_x (ctx ()) !sock ev) in
+          sock := s'; count_tags tags; o in
+        let retx_of = function
+          | XOut o -> ret_of o
+          | XSizeSlice (n, sl) -> Printf.sprintf "%s sl=%s" (sz n) (sz sl)
+          | XBytesSlice (l, sl) -> Printf.sprintf "%s sl=%s" (ret_bytes l) (sz sl) in
         (match toks with
          | "listen" :: port :: rest ->
              let addr = if kv rest "a" = Some "1" then Some local_addr else None in
              Printf.printf "ret %s\n" (ret_of (api (EvListen { le_addr = addr; le_port = zs port })))
          | "connect" :: rest ->
              let rp = z_of_int (dflt 0 (opt_i (kv rest "rp"))) and lp = z_of_int (dflt 0 (opt_i (kv rest "lp"))) in
-             let o = api (EvConnect (peer_addr, rp, { le_addr = None; le_port = lp })) in
-             if o = OUnit then pop_isn ();
-             Printf.printf "ret %s\n" (ret_of o)
+             let (v6, ra) = match kv rest "ra" with
+               | None | Some "4" -> (false, peer_addr) | Some "0" -> (false, Z0)
+               | Some "6" -> (true, z_of_int 2) | Some "60" -> (true, Z0)
+               | Some x -> failwith ("bad ra " ^ x) in
+             let la = match kv rest "la" with
+               | None | Some "-" -> None | Some "4" -> Some local_addr | Some "0" -> Some Z0
+               | Some x -> failwith ("bad la " ^ x) in
+             if v6 && la = None && ra <> Z0 && int_of_z rp <> 0 && int_of_z lp <> 0 then
+               failwith "connect to an IPv6 peer without a local address is outside the model";
+             let o = apix (XConnectAf (v6, ra, rp, { le_addr = la; le_port = lp })) in
+             if o = XOut OUnit then pop_isn ();
+             Printf.printf "ret %s\n" (retx_of o)
          | ["close"] -> Printf.printf "ret %s\n" (ret_of (api EvClose))
          | ["abort"] -> Printf.printf "ret %s\n" (ret_of (api EvAbort))
          | ["send"; n] ->
@@ -110,6 +126,14 @@ let () =
              let o = api (EvSend data) in
              (match o with OSize k -> app_off := !app_off + int_of_z k | _ -> ());
              Printf.printf "ret %s\n" (ret_of o)
+         | ["sendf"; k] ->
+             let k = int_of_string k in
+             let off = !app_off in
+             let data = List.init k (fun i -> z_of_int (app_byte (off + i))) in
+             let o = apix (XSendWith data) in
+             (match o with XSizeSlice (n, _) -> app_off := !app_off + int_of_z n | _ -> ());
+             Printf.printf "ret %s\n" (retx_of o)
+         | ["recvf"; k] -> Printf.printf "ret %s\n" (retx_of (apix (XRecvWith (zs k))))
          | ["recv"; n] -> Printf.printf "ret %s\n" (ret_of (api (EvRecv (zs n))))
          | ["peek"; n] -> Printf.printf "ret %s\n" (ret_of (api (EvPeekSlice (zs n))))
          | ["peekc"; n] -> Printf.printf "ret %s\n" (ret_of (api (EvPeek (zs n))))
@@ -174,7 +198,8 @@ let () =
              Printf.printf "st %s\n" (state_name s.s_state);
              Printf.printf "q %s %s\n" (sz (tcp_send_queue s)) (sz (tcp_recv_queue s));
              let b x = if x then 1 else 0 in
-             Printf.printf "cap %d%d%d%d\n" (b (tcp_may_send s)) (b (tcp_may_recv s)) (b (tcp_can_send s)) (b (tcp_can_recv s));
+             Printf.printf "cap %d%d%d%d%d%d%d\n" (b (tcp_may_send s)) (b (tcp_may_recv s)) (b (tcp_can_send s)) (b (tcp_can_recv s))
+               (b (tcp_is_listening s)) (b (tcp_is_active s)) (b (tcp_is_open s));
              (match pa with
               | None -> print_string "pollat none\n"
               | Some t ->
